@@ -635,7 +635,7 @@ def formatnum_fn(
     else:
         sep = ctx.LOCALIZATION_DATA["grouping_separator"]
 
-    if sep != "." and sep in arg0:
+    if sep and sep != "." and sep in arg0:
         # separator only allowed when R)eversing (the raw input always uses
         # "." as its decimal point, also where "." is the group separator)
         return arg0
